@@ -454,7 +454,7 @@ pub fn well_formed(e: &E) -> bool {
                 (E::Prop(_), _) => false,
                 // an identifier directly right of `.` is a property, not a look-up
                 (E::Ident(_), Bin::Access) => false,
-                (E::Effect(v, _), Bin::Access) if matches!(**v, E::Ident(_)) => false,
+                (E::Effect(v, _), Bin::Access) if matches!(**v, E::Ident(_) | E::Float(_)) => false,
                 // a float index would print as a chain of accesses (`$.2.5`)
                 (E::Float(_), Bin::Access) => false,
                 _ => true,
